@@ -164,7 +164,7 @@ def check(case):
     info = {}
     with env.scratch() as d:
         Ts = G.build_probes(case, d)
-        for out in [d / 'merged'] + ([d / 'merged2'] if case.get('again') else []):
+        for out in [G.out_dir_for(case, d)] + ([d / 'merged2'] if case.get('again') else []):
             merger, model = G.run_merge(Ts, out, must_return)
             try:
                 model.close()
